@@ -85,7 +85,7 @@ def run(c, a):
     else:
         def one(job):
             cfg, must_hold = job
-            return job, c.tlc("ClientConn", "ClientConn", cfg, workers=4, timeout=800 if c.tier == "thorough" else 120,
+            return job, c.tlc("ClientConn", "ClientConn", cfg, workers=4, timeout=1800 if c.tier == "thorough" else 900,
                               name="design-" + cfg[:-4])
         with ThreadPoolExecutor(max_workers=3) as ex:
             results = list(ex.map(one, prof["design"]))
